@@ -459,6 +459,17 @@ func (l *Lexer) scanCommodityOrText() Token {
 	for l.pos < len(l.input) && (l.isLetter(l.peek()) || l.isDigit(l.peek())) {
 		l.advance()
 	}
+	if followsAmount {
+		// the commodity word of an amount may be written in any script (5 руб @ $2)
+		for l.pos < len(l.input) {
+			r, size := utf8.DecodeRuneInString(l.input[l.pos:])
+			if !unicode.IsLetter(r) && !unicode.IsDigit(r) {
+				break
+			}
+			l.pos += size
+			l.column += columnWidth(r)
+		}
+	}
 
 	value := l.input[start:l.pos]
 
